@@ -19,6 +19,7 @@ import (
 	"os"
 	"sort"
 
+	"github.com/ethereum/go-ethereum/common"
 	"github.com/ethereum/go-ethereum/core/types/bal"
 	sk "verif/harness/statekit"
 	tl "verif/harness/tracelib"
@@ -101,6 +102,31 @@ func implBlockKey(m []sk.BlkAcc) string {
 	return blockKey(in, balc, nonce, code, wr, rd)
 }
 
+// endOfBlock checks the merged list of a finished block against the states the block went
+// through: (1) the index-addressable Lookup view returns the per-transaction worlds, and
+// (2) applying the list to the parent state with StateDB.ApplyBlockAccessList (no execution)
+// reproduces the post-state root of the executed block.
+func endOfBlock(m *sk.Machine, block *bal.ConstructionBlockAccessList, baseRoot common.Hash, worlds []sk.World) []string {
+	enc := block.ToEncodingObj()
+	problems := m.U.CheckLookup(enc, worlds)
+	parent, err := m.Env.Open(baseRoot)
+	if err != nil {
+		return append(problems, fmt.Sprintf("open parent state: %v", err))
+	}
+	if err := parent.ApplyBlockAccessList(enc); err != nil {
+		return append(problems, fmt.Sprintf("ApplyBlockAccessList: %v", err))
+	}
+	got := parent.IntermediateRoot(m.R)
+	want := m.U.RefRoot(worlds[len(worlds)-1])
+	if got != want {
+		problems = append(problems, fmt.Sprintf("applying the recorded block access list to the parent state gives root %x, the executed block ends in a world with root %x", got, want))
+	}
+	if exec := m.SDB.Copy().IntermediateRoot(m.R); exec != want {
+		problems = append(problems, fmt.Sprintf("executed state has root %x, its projected world has root %x", exec, want))
+	}
+	return problems
+}
+
 // replay executes one behaviour of MCBAL on a fresh StateDB.
 func replay(u *sk.Universe, steps []step, idx int, sum *tl.Summary) (string, int) {
 	env := envFor(idx)
@@ -110,6 +136,7 @@ func replay(u *sk.Universe, steps []step, idx int, sum *tl.Summary) (string, int
 		return err.Error(), 0
 	}
 	block := bal.NewConstructionBlockAccessList()
+	baseRoot, worlds := m.LastRoot, []sk.World{steps[0].St.World()}
 	for i := 1; i < len(steps); i++ {
 		act := steps[i].Act
 		txIdx := uint32(m.Tx + 1)
@@ -158,6 +185,10 @@ func replay(u *sk.Universe, steps []step, idx int, sum *tl.Summary) (string, int
 		}
 		if p := sk.CheckEncoding(block, m.Tx); len(p) > 0 {
 			return fmt.Sprintf("step %d: encoded form of the block list: %v", i, p), i
+		}
+		worlds = append(worlds, steps[i].St.World())
+		if p := endOfBlock(m, block, baseRoot, worlds); len(p) > 0 {
+			return fmt.Sprintf("step %d (block of %d transactions): %v", i, m.Tx, p), i
 		}
 	}
 	return "", 0
@@ -229,9 +260,11 @@ func runRecord(path string, seed int64, ntraces, steps, na, ns, ripemd int, sum 
 			continue
 		}
 		block := bal.NewConstructionBlockAccessList()
+		baseRoot, worlds := m.LastRoot, []sk.World{w}
 		p, problems := m.Project(true)
 		emit(sk.Act{Op: "reset"}, p, len(problems) == 0, tl.M{"rules": "amsterdam", "world": w})
 		shape := ""
+		diverged := false
 		for i := 0; i < steps; i++ {
 			act := g.Next(r, m, &p)
 			if i == steps-1 {
@@ -256,6 +289,7 @@ func runRecord(path string, seed int64, ntraces, steps, na, ns, ripemd int, sum 
 				if m.LastBAL != nil {
 					block.Merge(m.LastBAL)
 				}
+				worlds = append(worlds, p.World())
 				sum.Count("bal-recorded")
 				if t == 0 {
 					sum.Sample(tl.M{"tx": txIdx, "bal": txBal})
@@ -264,11 +298,21 @@ func runRecord(path string, seed int64, ntraces, steps, na, ns, ripemd int, sum 
 			emit(act, p, ok, extra)
 			sum.Count(act.Op)
 			shape += act.Op[:2]
+			if !ok {
+				diverged = true
+				break // the trace is rejected at this event
+			}
+		}
+		if diverged {
+			env.Close()
+			sum.Traces++
+			continue
 		}
 		// end of block: the merged list in its encoding form
 		enc := block.ToEncodingObj()
 		blk, bp := u.ProjectBlockBAL(enc)
 		ep := sk.CheckEncoding(block, m.Tx)
+		ep = append(ep, endOfBlock(m, block, baseRoot, worlds)...)
 		note(t, steps, sk.Act{Op: "EndBlock"}, append(bp, ep...))
 		emit(sk.Act{Op: "EndBlock"}, p, len(bp) == 0 && len(ep) == 0, tl.M{"blk": blk})
 		sum.Count("EndBlock")
@@ -285,7 +329,7 @@ func runRecord(path string, seed int64, ntraces, steps, na, ns, ripemd int, sum 
 }
 
 func main() {
-	mode := flag.String("mode", "record", "mbt|record")
+	mode := flag.String("mode", "record", "mbt|record|cases")
 	in := flag.String("in", "", "behaviours json (mode mbt)")
 	trace := flag.String("trace", "trace.ndjson", "output trace (mode record)")
 	out := flag.String("out", "summary.json", "summary output")
@@ -303,6 +347,9 @@ func main() {
 		sum.Mode = "replay"
 	case "record":
 		runRecord(*trace, seed, *n, *steps, *na, *ns, *ripemd, sum)
+	case "cases":
+		runCases(*in, sum)
+		sum.Mode = "replay"
 	default:
 		tl.Fatal("bad mode")
 	}
